@@ -7,12 +7,13 @@ open Drv Hs
 structure St where
   s : Sys := Sys.init false false false false
   cfg : List Bool := [false, false, false, false]
+  forged : Bool := false      -- a forged packet was injected: the two-honest-endpoints predicates no longer apply
   deriving Inhabited
 
 def b (v : Bool) : String := if v then "1" else "0"
 
 def dump (e : Ep) : String :=
-  s!"st={e.st} pil={b e.pil} pfwd={b e.pfwd} pifwd={b e.pifwd} sz={b e.sendZero} uil={b e.uil} ufwd={b e.ufwd} uifwd={b e.uifwd}"
+  s!"st={e.st} pil={b e.pil} pfwd={b e.pfwd} pifwd={b e.pifwd} sz={b e.sendZero} uil={b e.uil} ufwd={b e.ufwd} uifwd={b e.uifwd} t1i={b e.t1i} t1c={b e.t1c}"
 
 def extStr (types : List Nat) (zc : Option Nat) : String :=
   let e := if types.isEmpty then "none" else ",".intercalate (types.map toString)
@@ -50,10 +51,20 @@ def predDump (cfg : List Bool) (x : Bool) (dumpToks : List String) : Option Stri
     else none
   | _ => none
 
+/-- token segments between `|` separators -/
+def segs : List String → List (List String)
+  | [] => [[]]
+  | t :: r => match segs r with
+    | [] => [[t]]
+    | h :: tl => if t == "|" then [] :: h :: tl else (t :: h) :: tl
+
 /-- P_C13 on every line of implementation output: INIT and COOKIE-ECHO never leave with a zero checksum -/
 def wirePred (impl : List String) : Option String :=
   if impl.any (fun t => (t.splitOn "zero_INIT_[").length > 1 || (t.splitOn "zero_COOKIEECHO").length > 1) then
     some "[C13,C04] an INIT or COOKIE-ECHO packet was emitted with a zero checksum field"
+  -- P_C04 (timers): the state dumps on the line say `st=3` (established) together with a running T1 timer
+  else if (segs impl).any (fun seg => seg.contains "st=3" && (seg.contains "t1i=1" || seg.contains "t1c=1")) then
+    some "[C04] an endpoint is ESTABLISHED while a T1 handshake timer is still running (it will fail the connect when its retry budget runs out)"
   else none
 
 def orElse (a b : Option String) : Option String := match a with | some x => some x | none => b
@@ -62,7 +73,7 @@ def step (st : St) (op impl : List String) : St × String × Option String :=
   match op with
   | ["new", ilA, zcA, ilB, zcB] =>
     let s := Sys.init (ilA == "1") (zcA == "1") (ilB == "1") (zcB == "1")
-    ({ s := s, cfg := [ilA == "1", zcA == "1", ilB == "1", zcB == "1"] }, s!"{dump s.a} | {dump s.b}", none)
+    ({ s := s, cfg := [ilA == "1", zcA == "1", ilB == "1", zcB == "1"], forged := false }, s!"{dump s.a} | {dump s.b}", none)
   | ["start", x] =>
     let x := side x
     let n := (st.s.hist x).size
@@ -75,8 +86,39 @@ def step (st : St) (op impl : List String) : St × String × Option String :=
     | some p =>
       let n := (st.s.hist (!x)).size
       let s := st.s.step (.deliver x (parseNat! i))
-      let v := predDump st.cfg (!x) ((impl.dropWhile (· != "|")).drop 1)
+      let v := if impl == ["PANIC"] then some "[C03,C04] a handshake packet made the association panic"
+               else if st.forged then none else predDump st.cfg (!x) ((impl.dropWhile (· != "|")).drop 1)
       ({ st with s := s }, s!"{pktStr p} => {outStr ((s.hist (!x)).toList.drop n)} | {dump (s.ep (!x))}", orElse v (wirePred ((impl.dropWhile (· != "=>")).drop 1)))
+  | "forge" :: y :: kind :: args =>
+    -- a packet from outside the honest run: the model's handler is applied directly (not an `Op` of `Sys`; the theorems of
+    -- C04 / C13 / C17 are about honest pairs, the correspondence and the predicates below cover the hostile input)
+    let y := side y
+    let types (s : String) : List Nat := if s == "none" || s == "empty" then [] else (s.splitOn ",").filterMap (·.toNat?)
+    let zc (s : String) : Option Nat := if s == "none" then none else s.toNat?
+    let e0 := st.s.ep y
+    let msg : Option Msg := match kind, args with
+      | "init", [t, z] => some (.init (types t) (zc z))
+      | "initack", [t, z] => some (.initAck (types t) (zc z) 7)
+      | "cookieecho", [w] => some (.cookieEcho (if w == "own" && e0.hasCookie then e0.id else 999))
+      | "cookieack", [] => some .cookieAck
+      | _, _ => none
+    match msg with
+    | none => (st, "bad-op", none)
+    | some m =>
+      let (e1, ms) := handle e0 { msg := m, zeroCk := false }
+      let (e2, o) := flush e1 ms
+      let s := st.s.put y e2 o
+      let toks := (impl.dropWhile (· != "|")).drop 1
+      let has (k : String) := toks.contains k
+      let v : Option String :=
+        if impl == ["PANIC"] then some "[C03,C04] a handshake chunk that no honest peer sends made the association panic"
+        else match kind, args with
+          | "init", [t, _] =>
+            if (t == "none" || t == "empty") && e0.st != stEstablished && (has "pil=1" || has "pfwd=1" || has "pifwd=1") then
+              some "[C17,C04,C03] after an INIT that lists no supported extensions the endpoint still treats extensions as offered by the peer"
+            else none
+          | _, _ => none
+      ({ st with s := s, forged := true }, s!"{outStr o} | {dump e2}", orElse v (wirePred impl))
   | ["t1", x, kind] =>
     let x := side x
     let n := (st.s.hist x).size
